@@ -22,9 +22,14 @@ type StressResult struct {
 	Kinds      map[string]int `json:"kinds"`
 }
 
-func BcastStress(n int) StressResult {
-	res := StressResult{Family: "bcast-stress", Iterations: n, Kinds: map[string]int{}}
-	for i := 0; i < n && res.Violates == ""; i++ {
+// BcastStress runs up to n rounds of each phase, but no longer than budget per phase: the number of
+// rounds actually run is what is reported (a run that hits the budget is not a failure).
+func BcastStress(n int, budget time.Duration) StressResult {
+	res := StressResult{Family: "bcast-stress", Kinds: map[string]int{}}
+	phaseEnd := time.Now().Add(budget)
+	within := func(i int) bool { return i%64 != 0 || time.Now().Before(phaseEnd) }
+	for i := 0; i < n && res.Violates == "" && within(i); i++ {
+		res.Iterations++
 		b := utils.NewBroadcaster[int]()
 		ctx, cancel := context.WithCancel(context.Background())
 		var rr func() (*int, error)
@@ -83,7 +88,8 @@ func BcastStress(n int) StressResult {
 		cancel()
 	}
 	// many pending receivers whose owners free their keys as soon as they are woken, while Close walks the table
-	for i := 0; i < n/200+3 && res.Violates == ""; i++ {
+	phaseEnd = time.Now().Add(budget)
+	for i := 0; i < n/200+3 && res.Violates == "" && time.Now().Before(phaseEnd); i++ {
 		b := utils.NewBroadcaster[int]()
 		const many = 192
 		var wg sync.WaitGroup
@@ -118,7 +124,9 @@ func BcastStress(n int) StressResult {
 	}
 	// a stale receive function (its key was freed) runs while a value for ANOTHER key is being handed
 	// over: it must return its own key's cancellation, never the other key's value
-	for i := 0; i < n && res.Violates == ""; i++ {
+	phaseEnd = time.Now().Add(budget)
+	for i := 0; i < n && res.Violates == "" && within(i); i++ {
+		res.Kinds["stale-rounds"]++
 		b := utils.NewBroadcaster[string]()
 		ctx := context.Background()
 		stale, err := b.Receive("a", ctx)
